@@ -3,6 +3,7 @@
 package ui
 
 import (
+	"servitor/config"
 	"servitor/history"
 	"servitor/object"
 	"servitor/pub"
@@ -136,5 +137,38 @@ func VerifC07RealItems() {
 	verifrt.Assert(s.mode == normal && s.buffer == "", "back-to-normal-mode")
 	s.m.Unlock()
 	verifrt.Observe("pages", wantPages)
+	verifrt.Reach("end")
+}
+
+// VerifC07Commands: Enter in command mode with complete commands.
+func VerifC07Commands() {
+	saved := config.Parsed.Feeds
+	config.Parsed.Feeds = map[string][]string{"f": {"https://unreachable.example/a"}}
+	defer func() { config.Parsed.Feeds = saved }()
+	log := &frameLog{}
+	s := newTestState(40, 10, log)
+	settleState = s
+	s.m.Lock()
+	s.switchTo(pub.Tangible(&vItem{tag: 1, lines: 1}))
+	s.m.Unlock()
+	verifrt.Settle()
+	cmds := []string{"open https://unreachable.example/x", "feed f", "feed nope", "bogus x", "open", "", "open two words"}
+	wantNewPage := []bool{true, true, false, false, false, false, true}
+	k := verifrt.Choice("command", len(cmds))
+	// the last character is typed, the rest is already in the buffer
+	s.mode = command
+	if len(cmds[k]) > 0 {
+		s.buffer = cmds[k][:len(cmds[k])-1]
+		s.Update(cmds[k][len(cmds[k])-1])
+	}
+	verifrt.Assert(s.buffer == cmds[k] && s.mode == command, "typed-characters-accumulate")
+	s.Update(enterKey)
+	verifrt.Settle()
+	s.m.Lock()
+	pages := history.VerifLen(&s.h)
+	verifrt.Assert(s.mode == normal && s.buffer == "", "command-ends-in-normal-mode")
+	verifrt.Assert((pages == 2) == wantNewPage[k], "open-and-feed-commands-open-a-page-others-do-not")
+	s.m.Unlock()
+	verifrt.Observe("pages", pages)
 	verifrt.Reach("end")
 }
